@@ -62,7 +62,7 @@ def step (s : BState) (toks : List String) : BState × String :=
       sig := sig
       toWallet := toW
       sdBurn := kvNat rest "sdb" }
-    let x : Exec := { vmErr := (kv rest "x" == some "vmerr"), gasUsed := kvNat rest "eg", nLogs := kvNat rest "nl", panicked := (kvNat rest "pan" == 1) }
+    let x : Exec := { vmErr := (kv rest "x" == some "vmerr"), gasBefore := kvNat rest "gb", refundCounter := kvNat rest "rc", nLogs := kvNat rest "nl", panicked := (kvNat rest "pan" == 1), meterGas := kvNat rest "mg" }
     let (s', o) := stepEth s t x
     (s', showOut o)
   | "cos" :: rest =>
